@@ -44,10 +44,13 @@ Pairs == { <<f, g>> \in Faults \X Faults :
 Apply2(ps, f, g) == \* apply g (later key) first so that indexes stay valid
   IF g[1] = "add" THEN Apply(Apply(ps, f), g) ELSE Apply(Apply(ps, g), f)
 DictInputs == { Dct(Valid) } \cup { Dct(Apply(Valid, f)) : f \in Faults } \cup { Dct(Apply2(Valid, p[1], p[2])) : p \in Pairs }
+\* fewer keys than fields, one of them unexpected (the extra-keys check must not depend on the number of keys)
+FewKeys == { Dct(<< <<S("zz"), I(1)>> >>), Dct(<< <<S("a"), I(1)>>, <<S("zz"), I(1)>> >>), Dct(<< <<S("x"), I(1)>>, <<S("zz"), I(1)>> >>),
+             Dct(<< <<S("a"), I(1)>>, <<S("b"), Dct(<< <<S("zz"), I(1)>> >>)>>, <<S("ee"), S("r")>> >>) }
 PInputs == { Dct(<< <<S("x"), I(2)>> >>), Dct(<< <<S("x"), S("bad")>> >>), Dct(<<>>), Dct(<< <<S("x"), I(1)>>, <<S("zz"), I(1)>> >>),
              Dct(<< <<S("y"), None>> >>), Dct(<< <<S("x"), None>>, <<S("y"), I(5)>> >>) }
 
-InputsFor(C) == NonDicts \cup (IF C[2] = "D" THEN DictInputs ELSE PInputs \cup { Dct(Valid) })
+InputsFor(C) == NonDicts \cup FewKeys \cup (IF C[2] = "D" THEN DictInputs ELSE PInputs \cup { Dct(Valid) })
 
 Init == T = <<"start">> /\ v = <<"nov">> /\ kind = "start"
 Next == \/ kind = "start" /\ T' \in Classes /\ v' = v /\ kind' = "type"
